@@ -176,6 +176,30 @@ func (vc *VC) staticCall(call ssa.CallInstruction, callee *ssa.Function, binding
 			escaped = append(escaped, l)
 		}
 	}
+	// a location whose address was handed to a library function earlier (flag.BoolVar(&x, ..)) may be
+	// written by any later call (flags.Parse)
+	for _, l := range vc.escapedLib {
+		vc.havocLV(l)
+	}
+	if !(callee.Pkg == vc.e.pkg && callee.Blocks != nil) {
+		vc.escapedLib = append(vc.escapedLib, escaped...)
+		// cells (variables of basic type) whose address a library function has seen
+		for n := range vc.libCells {
+			vc.arrCur(n, vc.libCells[n])
+			vc.havocArr(n)
+		}
+		for _, a := range c.Args {
+			if pt, ok := a.Type().Underlying().(*types.Pointer); ok && !isStruct(pt.Elem()) {
+				if _, isAlloc := a.(*ssa.Alloc); isAlloc {
+					n, srt := vc.e.cellArr(pt.Elem())
+					if vc.libCells == nil {
+						vc.libCells = map[string]string{}
+					}
+					vc.libCells[n] = srt
+				}
+			}
+		}
+	}
 	if callee.Pkg == vc.e.pkg && callee.Blocks != nil {
 		name := vc.e.fname(callee)
 		con := vc.e.cs.Funcs[name]
